@@ -21,7 +21,7 @@ class Spec:
 
     def strategy(self, tier):
         from hypothesis import strategies as st
-        o = {"p_csum": 35, "weights": {"crash": 6}}
+        o = {"p_csum": 35, "p_gendir": 35, "weights": {"crash": 6, "rmgendir": 4, "mkgendir": 2}}
         # a second family dense in checksummed targets and source edits with longer histories: staleness that
         # needs "out-of-band rebuild of the consumer, then another edit" lives here
         d = {"p_failflag": 5, "p_csum": 60, "p_always": 5, "p_ifc": 5, "min_ops": 8, "max_ops": 16,
